@@ -1,10 +1,27 @@
 (* C18 — Input documents mean the same thing in legacy and YANG form.
-   Property theorems only; proofs in Proofs/Yang.v, model in Model/Yang.v (precision table: generated
-   Model/YangPrecision.v). *)
+   Property theorems only; proofs in Proofs/Yang.v, model in Model/Yang.v, precision table in the generated
+   Model/YangPrecision.v (regenerated from gnpy/yang/precision_dict.py by every run of the check).
+
+   Vocabulary
+     json                  JNull | JBool | JNum m d (= m / 10^d; d = 0: Python int, d >= 1: Python float identified
+                           with the decimal repr() prints) | JStr | JArr | JObj (ordered association list)
+     prec k                declared fraction digits of key k (PRECISION_DICT), None when the key is unknown
+     legacy_nulls_ok d     no list of d is the singleton [null]
+     yang_nulls_ok y       null occurs in y only as the single element of a list, never as [[null]]
+     wf_float m d          d >= 1 and no superfluous trailing zero (what repr() prints)
+     quant fd m d          the float obtained from JNum m d by ONE conversion to text with fd fraction digits and
+                           back: correctly rounded, ties to even (format(x, '.{fd}f')), except that for fd >= 17
+                           and a repr without exponent the digits of repr are TRUNCATED (PrettyFloat.__repr__)
+     doc_ok c d            numbers of d sit in leaves with a declared precision and fit it (an int in a 0-digit
+                           leaf, a float with at most f digits in an f-digit leaf, 1 <= f <= 18); strings only in
+                           string-typed (-1) or undeclared leaves.  c = declared digits of the enclosing key.
+     doc_loose c d         same without the bound on the number of digits
+     quant_doc c d         d with every number of a decimal leaf replaced by its quant *)
 From Verif Require Import Prelude Model.YangPrecision Model.Yang Proofs.Yang.
+From Coq Require Import Lia.
 Open Scope Z_scope.
 
-(* None <-> [None] : the two directions cancel on well-formed documents *)
+(* ================= None <-> [None] ================= *)
 Theorem C18_empty_to_none_none_to_empty : forall j,
   legacy_nulls_ok j = true -> empty_to_none (none_to_empty j) = j.
 Proof. exact e2n_n2e. Qed.
@@ -15,7 +32,211 @@ Theorem C18_none_to_empty_empty_to_none : forall y,
 Proof. exact n2e_e2n. Qed.
 Print Assumptions C18_none_to_empty_empty_to_none.
 
-(* aliases: Edfa branch *)
+Example ex_nulls :
+  let d := JObj [("con_in"%string, JNull); ("l"%string, JArr [JNull; JNum 15 1]); ("o"%string, JObj [("city"%string, JNull)])] in
+  legacy_nulls_ok d = true /\ yang_nulls_ok (none_to_empty d) = true /\ none_to_empty d <> d.
+Proof. vm_compute. repeat split; discriminate. Qed.
+
+(* ================= decimal formatting and parsing (fmt_parse) ================= *)
+(* str(PrettyFloat(x, fd)) then float(): the result is quant fd x, for every int or float x *)
+Theorem C18_fmt_parse : forall fd m d, (1 <= fd <= 18)%nat ->
+  exists s, pretty (Z.of_nat fd) m d = Ok s /\ py_float (string_of_list_ascii s) = Ok (quant fd m d).
+Proof. exact pretty_parse. Qed.
+Print Assumptions C18_fmt_parse.
+
+(* a float with at most the declared digits survives unchanged *)
+Theorem C18_fmt_parse_exact : forall fd m d, wf_float m d -> (d <= fd)%nat -> quant fd m d = JNum m d.
+Proof. exact quant_exact. Qed.
+Print Assumptions C18_fmt_parse_exact.
+
+(* more digits are rounded once: the result is a float with at most fd digits, which a second conversion keeps *)
+Theorem C18_fmt_parse_rounded_once : forall fd m d m' d', (1 <= fd)%nat -> quant fd m d = JNum m' d' ->
+  wf_float m' d' /\ (d' <= fd)%nat /\ quant fd m' d' = JNum m' d'.
+Proof.
+  intros fd m d m' d' Hf H. destruct (quant_is_wf _ _ _ _ _ Hf H) as [W L].
+  repeat split; try assumption; try apply W. exact (quant_idempotent _ _ _ _ _ Hf H).
+Qed.
+Print Assumptions C18_fmt_parse_rounded_once.
+
+(* the rounding mode of the '.{fd}f' branch: nearest, at most half a unit of the last kept digit away *)
+Theorem C18_round_nearest : forall a d fd, 0 <= a -> (fd < d)%nat ->
+  2 * Z.abs (round_he a d fd * pow10 (d - fd) - a) <= pow10 (d - fd).
+Proof. exact round_he_nearest. Qed.
+Print Assumptions C18_round_nearest.
+
+Example ex_fmt :
+  (* 80.5 with 6 digits -> "80.5" -> 80.5 ; -12.34567 with 2 digits -> "-12.35" -> -12.35 ; 0.125 -> tie to even 0.12 ;
+     1.265e-15 with 18 digits ; 17 digits of 0.12345678901234568 at 17 digits: truncated, not rounded *)
+  pretty 6 805 1 = Ok (list_ascii_of_string "80.5") /\ quant 6 805 1 = JNum 805 1 /\ wf_float 805 1 /\
+  pretty 2 (-1234567) 5 = Ok (list_ascii_of_string "-12.35") /\ quant 2 (-1234567) 5 = JNum (-1235) 2 /\
+  quant 2 125 3 = JNum 12 2 /\
+  pretty 18 1265 18 = Ok (list_ascii_of_string "0.000000000000001265") /\
+  quant 17 12345678901234568999 20 = JNum 12345678901234568 17.
+Proof. vm_compute. repeat split; try lia. Qed.
+
+(* ================= convert_dict / convert_back on whole documents ================= *)
+Theorem C18_convert_back_convert_dict : forall x, doc_ok None x = true ->
+  exists y, convert_dict x = Ok y /\ convert_back y = Ok x.
+Proof. exact cback_cdict_exact. Qed.
+Print Assumptions C18_convert_back_convert_dict.
+
+Theorem C18_convert_rounds_once : forall x, doc_loose None x = true ->
+  exists y x', convert_dict x = Ok y /\ convert_back y = Ok x' /\ x' = quant_doc None x /\ doc_ok None x' = true /\
+               exists y', convert_dict x' = Ok y' /\ convert_back y' = Ok x'.
+Proof. exact cback_cdict_rounds_once. Qed.
+Print Assumptions C18_convert_rounds_once.
+
+(* the generic layer of yang_to_legacy o legacy_to_yang: none_to_empty, convert_dict | empty_to_none, convert_back *)
+Theorem C18_generic_roundtrip : forall d c, legacy_nulls_ok d = true -> doc_ok c d = true ->
+  exists y, convert_dict_fd (dflt c) (none_to_empty d) = Ok y /\ convert_back_fd c (empty_to_none y) = Ok d.
+Proof. exact generic_roundtrip. Qed.
+Print Assumptions C18_generic_roundtrip.
+
+Definition ex_doc : json :=
+  JObj [("uid"%string, JStr "Edfa1"); ("operational"%string,
+        JObj [("gain_target"%string, JNum 205 1); ("delta_p"%string, JNull); ("out_voa"%string, JNum 0 1)]);
+        ("pmd_coef"%string, JNum 1265 18); ("N"%string, JNum (-12) 0);
+        ("nf_ripple"%string, JArr [JNum 4372876328262819 16; JNum 5 1])].
+Example ex_doc_ok : doc_ok None ex_doc = true /\ legacy_nulls_ok ex_doc = true /\
+  convert_dict ex_doc = Ok (JObj [("uid"%string, JStr "Edfa1"); ("operational"%string,
+        JObj [("gain_target"%string, JStr "20.5"); ("delta_p"%string, JNull); ("out_voa"%string, JStr "0.0")]);
+        ("pmd_coef"%string, JStr "0.000000000000001265"); ("N"%string, JNum (-12) 0);
+        ("nf_ripple"%string, JArr [JStr "0.4372876328262819"; JStr "0.5"])]).
+Proof. vm_compute. repeat split. Qed.
+Example ex_doc_loose :
+  let x := JObj [("gain_target"%string, JNum 2214571827636001 14); ("loss"%string, JNum 3 0)] in
+  doc_loose None x = true /\ doc_ok None x = false /\
+  quant_doc None x = JObj [("gain_target"%string, JNum 22145718 6); ("loss"%string, JNum 30 1)].
+Proof. vm_compute. repeat split. Qed.
+
+(* ================= structural converter pairs (on the object they rewrite) ================= *)
+(* per-degree power targets of a ROADM: params = others ++ [pch targets] ++ [psd targets] ++ [psw targets],
+   each group optional, non-empty, with distinct degrees *)
+Theorem C18_degree_roundtrip : forall others o1 o2 o3,
+  jget E1 others = None -> jget E2 others = None -> jget E3 others = None -> jget K_pdt others = None ->
+  items_ok o1 -> items_ok o2 -> items_ok o3 ->
+  let p := others ++ blk E1 o1 ++ blk E2 o2 ++ blk E3 o3 in
+  exists p', degree_params p = Ok p' /\ back_degree_params p' = Ok p.
+Proof. exact degree_roundtrip. Qed.
+Print Assumptions C18_degree_roundtrip.
+
+Example ex_degree :
+  let others := [("target_pch_out_db"%string, JNum (-20) 0)] in
+  let o1 := Some [("east edfa in A to B"%string, JNum (-185) 1); ("east edfa in A to C"%string, JNum (-19) 0)] in
+  let o2 := Some [("east edfa in A to D"%string, JNum 312 6)] in
+  jget E1 others = None /\ jget E2 others = None /\ jget E3 others = None /\ jget K_pdt others = None /\
+  items_ok o1 /\ items_ok o2 /\ items_ok None /\
+  degree_params (others ++ blk E1 o1 ++ blk E2 o2 ++ blk E3 None) =
+    Ok (others ++ [(K_pdt, JArr [JObj [(K_degree, JStr "east edfa in A to B"); (E1, JNum (-185) 1)];
+                                 JObj [(K_degree, JStr "east edfa in A to C"); (E1, JNum (-19) 0)];
+                                 JObj [(K_degree, JStr "east edfa in A to D"); (E2, JNum 312 6)]])]).
+Proof.
+  cbn zeta. repeat split; try reflexivity; try discriminate.
+  - repeat constructor; cbn; intuition discriminate.
+  - repeat constructor; cbn; intuition discriminate.
+Qed.
+
+Theorem C18_design_band_roundtrip : forall others items,
+  jget K_pddb others = None -> jget K_pddbt others = None -> items <> [] -> NoDup (keys items) ->
+  let p := others ++ [(K_pddb, JObj items)] in
+  exists p', design_band_params p = Ok p' /\ back_design_band_params p' = Ok p.
+Proof. exact design_band_roundtrip. Qed.
+Print Assumptions C18_design_band_roundtrip.
+
+Theorem C18_loss_coef_roundtrip : forall others fl vl,
+  jget K_loss others = None -> jget K_losspf others = None -> length fl = length vl -> vl <> [] ->
+  let p := others ++ [(K_loss, JObj [("frequency"%string, JArr fl); ("value"%string, JArr vl)])] in
+  exists p', loss_params p = Ok p' /\ back_loss_params p' = Ok p.
+Proof. exact loss_coef_roundtrip. Qed.
+Print Assumptions C18_loss_coef_roundtrip.
+
+Theorem C18_raman_coef_roundtrip : forall others rf gl fl,
+  jget K_raman others = None -> length fl = length gl -> fl <> [] ->
+  let p := others ++ [(K_raman, JObj [("reference_frequency"%string, rf); ("g0"%string, JArr gl);
+                                      ("frequency_offset"%string, JArr fl)])] in
+  exists p', raman_params p = Ok p' /\ back_raman_params p' = Ok p.
+Proof. exact raman_coef_roundtrip. Qed.
+Print Assumptions C18_raman_coef_roundtrip.
+
+Theorem C18_nf_coef_roundtrip : forall key others c0 ct,
+  jget key others = None -> is_dict c0 = false ->
+  let e := others ++ [(key, JArr (c0 :: ct))] in
+  exists e', nf_forth key e = Ok e' /\ nf_back key e' = Ok e.
+Proof. exact nf_coef_roundtrip. Qed.
+Print Assumptions C18_nf_coef_roundtrip.
+
+(* Span / SI power range: a library with ONE Span (SI) entry *)
+Theorem C18_range_roundtrip_single : forall key lk dk dothers others a b c,
+  String.eqb lk dk = false -> jget lk others = None -> jget dk others = None -> jget key dothers = None ->
+  let doc := dothers ++ [(key, JArr [JObj (others ++ [(lk, JArr [a; b; c])])])] in
+  exists doc', on_entries key (range_entry lk dk) doc = Ok doc' /\ back_range_first key lk dk doc' = Ok doc.
+Proof. exact range_roundtrip_single. Qed.
+Print Assumptions C18_range_roundtrip_single.
+
+(* ... and it is FALSE of the faithful model with a second entry (finding F15) *)
+Theorem C18_range_second_entry_refuted :
+  exists doc doc' doc'', convert_delta_power_range doc = Ok doc' /\ convert_back_delta_power_range doc' = Ok doc''
+                         /\ doc'' <> doc.
+Proof. exact range_second_entry_refuted. Qed.
+Print Assumptions C18_range_second_entry_refuted.
+
+(* RamanFiber raman_efficiency: the pair is not a round trip and breaks idempotence (finding F16) *)
+Theorem C18_raman_efficiency_refuted :
+  exists doc doc' doc'', convert_raman_efficiency doc = Ok doc' /\ convert_back_raman_efficiency doc' = Ok doc''
+                         /\ doc'' <> doc /\ convert_raman_efficiency doc'' <> Ok doc'.
+Proof. exact raman_efficiency_refuted. Qed.
+Print Assumptions C18_raman_efficiency_refuted.
+
+Example ex_struct :
+  (exists p', design_band_params [("target_pch_out_db"%string, JNum (-20) 0);
+       (K_pddb, JObj [("deg1"%string, JArr [JObj [("f_min"%string, JNum 1913 1)]])])] = Ok p') /\
+  (exists p', loss_params [("length"%string, JNum 80 0);
+       (K_loss, JObj [("frequency"%string, JArr [JNum 186 0; JNum 196 0]); ("value"%string, JArr [JNum 21 2; JNum 2 1])])] = Ok p') /\
+  nf_forth "nf_coef" [("type_variety"%string, JStr "a"); ("nf_coef"%string, JArr [JNum 1 1; JNum 2 1])]
+    = Ok [("type_variety"%string, JStr "a"); ("nf_coef"%string, JArr [JObj [("coef_order"%string, JNum 0 0); ("nf_coef"%string, JNum 1 1)];
+                                                              JObj [("coef_order"%string, JNum 1 0); ("nf_coef"%string, JNum 2 1)]])].
+Proof. repeat split; try (eexists; vm_compute; reflexivity). Qed.
+
+(* ================= whole documents through the dispatch ================= *)
+Theorem C18_y2l_l2y_sim_params : forall o,
+  is_sim_params o = true -> legacy_nulls_ok (JObj o) = true -> doc_ok (prec SIM_PARAMS_NMSP) (JObj o) = true ->
+  exists y, legacy_to_yang (JObj o) = Ok y /\ yang_to_legacy y = Ok (JObj o).
+Proof. exact y2l_l2y_sim_params. Qed.
+Print Assumptions C18_y2l_l2y_sim_params.
+
+Theorem C18_y2l_l2y_spectrum : forall v,
+  legacy_nulls_ok v = true -> doc_ok (prec SPECTRUM_NMSP) v = true ->
+  let d := JObj [("spectrum"%string, v)] in
+  exists y, legacy_to_yang d = Ok y /\ yang_to_legacy y = Ok d.
+Proof. exact y2l_l2y_spectrum. Qed.
+Print Assumptions C18_y2l_l2y_spectrum.
+
+(* l2y (y2l (l2y d)) = l2y d and the dual, wherever the round trip holds *)
+Theorem C18_l2y_idempotent : forall d,
+  (exists y, legacy_to_yang d = Ok y /\ yang_to_legacy y = Ok d) ->
+  exists y l, legacy_to_yang d = Ok y /\ yang_to_legacy y = Ok l /\ legacy_to_yang l = Ok y /\
+              (exists y', legacy_to_yang l = Ok y' /\ yang_to_legacy y' = Ok l).
+Proof. exact idempotent_of_roundtrip. Qed.
+Print Assumptions C18_l2y_idempotent.
+
+Definition ex_sim : obj :=
+  [("raman_params"%string, JObj [("flag"%string, JBool true); ("result_spatial_resolution"%string, JNum 100000 1);
+                                 ("solver_spatial_resolution"%string, JNum 505 1)]);
+   ("nli_params"%string, JObj [("method"%string, JStr "ggn_spectrally_separated"); ("dispersion_tolerance"%string, JNum 10 1);
+                               ("computed_channels"%string, JArr [JNum 1 0; JNum 18 0; JNum 37 0])])].
+Example ex_sim_ok :
+  is_sim_params ex_sim = true /\ legacy_nulls_ok (JObj ex_sim) = true /\ doc_ok (prec SIM_PARAMS_NMSP) (JObj ex_sim) = true.
+Proof. vm_compute. repeat split. Qed.
+Definition ex_spectrum : json :=
+  JArr [JObj [("f_min"%string, JNum 1914000000000000 1); ("f_max"%string, JNum 1931000000000000 1);
+              ("baud_rate"%string, JNum 320000000000 1); ("slot_width"%string, JNum 500000000000 1);
+              ("roll_off"%string, JNum 15 2); ("tx_osnr"%string, JNum 400 1); ("label"%string, JStr "mode_1")]].
+Example ex_spectrum_ok : legacy_nulls_ok ex_spectrum = true /\ doc_ok (prec SPECTRUM_NMSP) ex_spectrum = true.
+Proof. vm_compute. repeat split. Qed.
+
+(* ================= aliases (other_name) ================= *)
+(* Edfa branch: every declared name maps to the entry without its alias list, reporting that name, all other
+   fields equal to the declared entry *)
 Theorem C18_alias_spec_edfa : forall e names l,
   jhas "other_name" e = true -> alias_names e = Ok names -> expand_edfa e = Ok l ->
   forall n, In n names ->
@@ -27,7 +248,24 @@ Theorem C18_alias_spec_edfa : forall e names l,
 Proof. exact alias_spec_edfa. Qed.
 Print Assumptions C18_alias_spec_edfa.
 
-(* aliases: Transceiver branch, as the code is (F5) *)
+Example ex_alias_edfa :
+  let e := [("type_variety"%string, JStr "std_medium_gain"); ("other_name"%string, JArr [JStr "a"; JStr "b"]);
+            ("gain_flatmax"%string, JNum 26 0)] in
+  jhas "other_name" e = true /\ alias_names e = Ok ["a"; "b"; "std_medium_gain"]%string.
+Proof. vm_compute. repeat split. Qed.
+
+(* Transceiver branch, as the code is (finding F5): the entry assigned at step i reports the name assigned at
+   step i-1, the first one the entry's own type_variety ... *)
+Theorem C18_transceiver_reports : forall names cur,
+  map (fun p => jget "type_variety" (snd p)) (trx_loop cur names) =
+  match names with
+  | [] => []
+  | _ => jget "type_variety" cur :: map (fun n => Some (JStr n)) (removelast names)
+  end.
+Proof. exact trx_loop_reports. Qed.
+Print Assumptions C18_transceiver_reports.
+
+(* ... so the alias specification is false of the faithful Transceiver model *)
 Theorem C18_alias_transceiver_refuted :
   exists e names l n e',
     jhas "other_name" e = true /\ alias_names e = Ok names /\ expand_trx e = Ok l /\ In n names /\
